@@ -29,7 +29,12 @@ func linkKeyBytes(k byte) []byte {
 }
 
 func linkIO(key []byte) iface.IO {
-	sk, err := enc.NewSecretbox(key)
+	// the key is handed over in a scratch buffer that is wiped afterwards, as a careful caller would
+	buf := append([]byte(nil), key...)
+	sk, err := enc.NewSecretbox(buf)
+	for i := range buf {
+		buf[i] = 0
+	}
 	if err != nil {
 		panic(&harnessError{"secretbox: " + err.Error()})
 	}
